@@ -25,7 +25,7 @@ ASSUMPTIONS = [
 
 def floors(tier):
     return {"states_checked": 3000, "pairs_matched_bit_exact": 8000, "chains_skipping_an_iterate": 60, "restart_states_checked": 150,
-            "inherited_pairs_checked": 300, "operators_spd_checked": 2500, "diag_operators": 800, "diag_operators_with_zero_columns": 200, "diag_requested_again_after_in_place_edit": 300, "rejected_pair_then_failed_search_then_progress": 20, "second_continuations_from_one_checkpoint_object": 40, "switch_states_checked": 300, "__nontrivial__": 150}
+            "inherited_pairs_checked": 300, "operators_spd_checked": 2500, "diag_operators": 800, "diag_operators_with_zero_columns": 200, "diag_requested_again_after_in_place_edit": 300, "rejected_pair_then_failed_search_then_progress": 20, "second_continuations_from_one_checkpoint_object": 40, "switch_states_checked": 300, "switch_runs_traced_through_a_logger": 60, "diagonals_held_by_the_caller_re-read_after_later_extractions": 3000, "__nontrivial__": 150}
 
 
 def cases(tier, seed):
@@ -66,7 +66,8 @@ def cases(tier, seed):
         yield {"kind": "switch", "switch": {"problem": ps, "maxcor": int(rng.integers(3, 8)), "maxiter": int(rng.integers(8, 13)),
                                             "switch_at": int(rng.integers(3, 8)), "variant": gen.pick(rng, ["indefinite", "indefinite", "indefinite", "reg", "rescale"]),
                                             "vseed": int(rng.integers(0, 2**31 - 1)), "strength": float(rng.uniform(0.5, 4.0)),
-                                            "eps_SY": float(gen.pick(rng, [2.2e-16, 2.2e-16, 1e-2]))}, "ftarget_stop": bool(i % 4 == 0)}
+                                            "eps_SY": float(gen.pick(rng, [2.2e-16, 2.2e-16, 1e-2]))}, "ftarget_stop": bool(i % 4 == 0),
+               "iprint": int(gen.pick(rng, [-1, 0, 50, 99, 100, 101, 1000])) if i % 3 == 1 else None}
     nd = 60 if tier == "quick" else 1500
     for i in range(nd):
         yield {"kind": "diag", "seed": subseed("C18d", seed, i) % (2**31), "count": 40}
@@ -248,8 +249,15 @@ def diag_case(spec, out, keys):
 
     rng = np.random.default_rng(spec["seed"])
     last = None
+    kept = []  # (the array handed to the caller, a copy of its values, description): diagonals a caller collected and still holds
     for j in range(spec["count"]):
-        n = int(rng.integers(1, 31))
+        for arr, val, desc in kept:
+            out.count("diagonals_held_by_the_caller_re-read_after_later_extractions")
+            if not np.array_equal(arr, val):
+                out.violate("diag_differs_from_dense", f"{desc}: the diagonal handed to the caller changed after later extractions (for other "
+                            f"operators) were made: max dev {float(np.max(np.abs(arr - val))):.3e}", what="diag_kept")
+                return
+        n = int(rng.integers(1, 31)) if j % 4 else int(gen.pick(rng, [3, 5, 8]))
         m = int(rng.integers(1, 13))
         A = gen.rand_spd(rng, n, float(np.exp(rng.uniform(0, np.log(1e3)))))
         sk = rng.standard_normal((m, n)) * np.exp(rng.uniform(-2, 1, (m, 1)))
@@ -305,6 +313,8 @@ def diag_case(spec, out, keys):
                         f"{e1:.3e} (own recursion) / {e2:.3e} (todense), tol {tol:.3e}", what="diag")
             return
         keys.add(f"diag/{spec['seed']}/{j}")
+        if j % 2 == 1 and len(kept) < 12:
+            kept.append((got, np.array(got, copy=True), f"diag n={n} m={sk.shape[0]} (extraction #{j})"))
         last = dict(n=n, pairs=int(sk.shape[0]))
     out.sample = dict(spec=spec, last=last)
 
@@ -318,6 +328,9 @@ def switch_case(spec, out, keys):
     extra = dict(cb="never")
     if spec.get("ftarget_stop"):
         extra["maxiter"] = max(1, sw["switch_at"])  # stop right after the iteration of the switch
+    if spec.get("iprint") is not None:
+        extra.update(logger=True, iprint=int(spec["iprint"]))  # tracing through the user's logger, at every verbosity
+        out.count("switch_runs_traced_through_a_logger")
     tr = switch_trace(sw, extra)
     if tr.exc is not None:
         # a factorisation failing on the rewritten history means the stored pairs do not define a positive definite operator
